@@ -475,6 +475,29 @@ func (hash *SexpHash) removeFromKeyOrder(key Sexp) {
 	}
 }
 
+// orderedBuckets returns the pairs of the hash, one per bucket, in
+// insertion order. Walking hash.Map directly visits the buckets in Go's
+// randomized map order, which made conversions of a record (and above all
+// the error reported for a record with several offending fields) differ
+// from run to run.
+func (hash *SexpHash) orderedBuckets() [][]*SexpPair {
+	out := make([][]*SexpPair, 0, len(hash.KeyOrder))
+	for _, key := range hash.KeyOrder {
+		hashval, err := HashExpression(nil, key)
+		if err != nil {
+			continue
+		}
+		for _, pair := range hash.Map[hashval] {
+			res, err := hash.Env.Compare(pair.Head, key)
+			if err == nil && res == 0 {
+				out = append(out, []*SexpPair{pair})
+				break
+			}
+		}
+	}
+	return out
+}
+
 func HashCountKeys(hash *SexpHash) int {
 	var num int
 	for _, arr := range hash.Map {
